@@ -5,6 +5,8 @@ use hashbrown::verif as hv;
 use hashbrown::{HashMap, HashSet, HashTable};
 
 type T = u32;
+/// next() calls made on an extract_if before it is dropped (symbolic cut <= STEPS)
+const STEPS: usize = 3;
 
 fn mk<const N: usize>(h: &[u64; K]) -> (HashTable<T>, St<N>) {
     crate::c06::mk_table::<N>(SYM, SYM, h, InvKind::Full)
@@ -48,7 +50,7 @@ pub fn table_extract_if<const N: usize>() {
     let mut calls = [0u8; K];
     let mut yielded = [0u8; K];
     let cut: usize = any();
-    assume(cut <= N + 1);
+    assume(cut <= STEPS);
     let mut exhausted = false;
     {
         let mut it = t.extract_if(|v| {
@@ -56,7 +58,7 @@ pub fn table_extract_if<const N: usize>() {
             p[v.id() as usize]
         });
         let mut j = 0;
-        while j < N + 1 {
+        while j < STEPS {
             if j >= cut {
                 break;
             }
@@ -105,7 +107,7 @@ pub fn map_extract_if<const N: usize>() {
     let mut yielded = [0u8; K];
     let mut calls = [0u8; K];
     let cut: usize = any();
-    assume(cut <= N + 1);
+    assume(cut <= STEPS);
     let mut exhausted = false;
     {
         let mut it = m.extract_if(|k, _v| {
@@ -113,7 +115,7 @@ pub fn map_extract_if<const N: usize>() {
             p[k.id as usize]
         });
         let mut j = 0;
-        while j < N + 1 {
+        while j < STEPS {
             if j >= cut {
                 break;
             }
